@@ -149,13 +149,25 @@ def run(tier, seed):
         ch = line[col - 1]
         ctx = line[max(0, col - 5):col + 5] + '\n' + ' ' * 4 + '^\n'
         ln = rnd.randint(1, 40)
-        txt = str(ParserError(ch, ln, col, ctx, line, allowed))
+        try:
+            txt = str(ParserError(ch, ln, col, ctx, line, allowed))
+        except Exception as ex:      # the diagnostic itself must not fail (property: the outcome is the diagnostic, never a traceback)
+            if not any(v[0].startswith('building the syntax diagnostic') for v in rep.violations):
+                rep.violation('building the syntax diagnostic for a stray character raises %s: %s' % (type(ex).__name__, ex),
+                              dict(line=line, col=col, char=ch, allowed=allowed, exception=type(ex).__name__))
+            continue
         pecases.append('{| pe_char := %s; pe_line_no := %s; pe_col := %s; pe_context := %s; pe_line := %s; pe_allowed := %s; pe_text := %s |}'
                        % (coq_str(ch), coq_z(ln), coq_z(col), coq_str(ctx), coq_str(line), coq_list([coq_str(a) for a in allowed]), coq_str(txt)))
         pem.append(dict(line=line, col=col, allowed=allowed))
-        e = ParserError('x', 1, 1, '', 'x', [])
         idx = rnd.randint(0, len(line) - 1)
-        wcases.append('{| w_line := %s; w_index := %d; w_word := %s |}' % (coq_str(line), idx, coq_str(e.get_uncrecognized_word(line, idx))))
+        try:
+            e = ParserError('x', 1, 1, '', 'x ', [])
+            word = e.get_uncrecognized_word(line, idx)
+        except Exception as ex:
+            if not any(v[0].startswith('get_uncrecognized_word raises') for v in rep.violations):
+                rep.violation('get_uncrecognized_word raises %s on an index inside the line' % type(ex).__name__, dict(line=line, index=idx))
+            continue
+        wcases.append('{| w_line := %s; w_index := %d; w_word := %s |}' % (coq_str(line), idx, coq_str(word)))
     rep.evaluations += len(pecases) + len(wcases)
     tie_broken = []
     if not tie_ok:
